@@ -23,6 +23,7 @@ enum OpKind {
   OP_DROP_MOCK_REF,  // Mode T: drop this task's shared_ptr to a mock (last owner destroys)
   OP_BARRIER,        // Mode T: all tasks meet; task 0 of the barrier performs the nested ops alone
   OP_CO_CALL, OP_CO_RESUME, OP_CO_DESTROY,
+  OP_END_SCOPE,      // the innermost C++ scope holding a scoped expectation ends (LIFO)
   OP_WIDE,           // C09: one call of a generated mock function of arity 0..15 with every passing mode
   OP_NOP,
   OP_KIND_COUNT
@@ -34,7 +35,7 @@ inline const char* op_name(int k) {
     "expect", "release", "abandon", "call", "q_sat", "q_completed",
     "new_watched", "destroy_watched", "copy_watched", "movecons_watched", "assign_watched",
     "req_destruction", "release_mon", "push_tracer", "pop_tracer", "set_reporter", "mutate",
-    "drop_mock_ref", "barrier", "co_call", "co_resume", "co_destroy", "wide", "nop"};
+    "drop_mock_ref", "barrier", "co_call", "co_resume", "co_destroy", "end_scope", "wide", "nop"};
   return (k >= 0 && k < OP_KIND_COUNT) ? n[k] : "?";
 }
 inline int op_kind_from_name(const char* s) {
@@ -75,7 +76,7 @@ inline Op::~Op() = default;
 //  destroy_mock    a0 mock
 //  move_mock       a0 mock (next movable at or after the selection)
 //  move_seq/destroy_seq   a0 sequence
-//  expect          a0 shape, a1 mock, a2..a4 operands v0..v2, a5 lo, a6 hi, a7 seq rotation, a8 seq reversal, a9 actor
+//  expect          a0 shape, a1 mock, a2..a4 operands v0..v2, a5 lo, a6 hi, a7 seq rotation, a8 bit0 seq reversal, bit1 scoped form, a9 actor
 //  release         a0 expectation
 //  abandon         a0 actor
 //  call            a0 mock, a1 fn, a2 arg0, a3 arg1
